@@ -173,6 +173,8 @@ func (u *Unit) execInstr(fn *ssa.Function, st *State, ins ssa.Instruction) {
 		// the function a closure value was made from is part of the value (functional options are recognised by it)
 		u.s.declFun("closure_fn", []Sort{SInt}, SInt)
 		u.s.assume(eq(sx("closure_fn", id), intLit(u.eng.funcID(f))))
+		// closure values are negative; plain function values (literals without free variables) are their function ids
+		u.s.assume(sx("<", id, "0"))
 	case *ssa.Range:
 		u.rangeInit(st, x)
 	case *ssa.Next:
@@ -186,7 +188,7 @@ func (u *Unit) execInstr(fn *ssa.Function, st *State, ins ssa.Instruction) {
 
 func (u *Unit) elemHeap(elemT types.Type) (string, Sort) {
 	name := "HS$" + typeKey(elemT)
-	if isPointerLike(elemT) {
+	if isRefLike(elemT) {
 		u.refHeaps[name] = true
 	}
 	return name, arrSort(SInt, arrSort(SInt, u.ty.sortOf(elemT)))
@@ -196,7 +198,7 @@ func (u *Unit) mapHeaps(mapT types.Type) (string, Sort, string, Sort) {
 	mt := mapT.Underlying().(*types.Map)
 	k := typeKey(mt)
 	ks, vs := u.ty.sortOf(mt.Key()), u.ty.sortOf(mt.Elem())
-	if isPointerLike(mt.Elem()) {
+	if isRefLike(mt.Elem()) {
 		u.refHeaps["HMv$"+k] = true
 	}
 	return "HMd$" + k, arrSort(SInt, arrSort(ks, SBool)), "HMv$" + k, arrSort(SInt, arrSort(ks, vs))
